@@ -34,6 +34,20 @@ type c13Fam[F any] struct {
 	pstr   func(F) string
 	tfs    []func(F) F
 	tnames []string
+	// refMerge/refEquals, when set, are the reference model's own merge and equality for this
+	// fact type (written in the harness), so that the oracle does not share dfa.DenseMapLattice
+	// with the solver. nil: the lattice's own Merge/Equals (their laws are checked separately).
+	refMerge  func(a, b F) F
+	refEquals func(a, b F) bool
+}
+
+func c13Ops[L dfa.Semilattice[F], F any](fam *c13Fam[F]) (merge func(a, b F) F, equals func(a, b F) bool) {
+	var l L
+	merge, equals = l.Merge, l.Equals
+	if fam.refMerge != nil {
+		merge, equals = fam.refMerge, fam.refEquals
+	}
+	return
 }
 
 type c13DenseCase struct {
@@ -46,7 +60,19 @@ type c13DenseCase struct {
 }
 
 func (c c13DenseCase) key() string {
-	return fmt.Sprintf("dense/%s/%s/t%v/in%v/%s", c.Fam, c.Graph, c.Labels, c.Entry, c13VariantNames[c.Variant])
+	labels := fmt.Sprint(c.Labels)
+	if len(c.Labels) > 16 { // large graphs: only the edges whose transfer is not the first of the family (id)
+		var b strings.Builder
+		b.WriteByte('[')
+		for e, l := range c.Labels {
+			if l != 0 {
+				fmt.Fprintf(&b, "e%d=%d;", e, l)
+			}
+		}
+		b.WriteByte(']')
+		labels = b.String()
+	}
+	return fmt.Sprintf("dense/%s/%s/t%s/in%v/%s", c.Fam, c.Graph, labels, c.Entry, c13VariantNames[c.Variant])
 }
 
 func c13Key(s string) string { return strings.ReplaceAll(s, " ", ",") }
@@ -67,6 +93,7 @@ type c13Scratch[F any] struct {
 // the bound that monotonicity guarantees (a harness error, not a violation).
 func c13Kleene[L dfa.Semilattice[F], F any](fam *c13Fam[F], gi *c13GraphInfo, labels []int, entryFact func(k int) F, in, edge []F) int {
 	var l L
+	merge, equals := c13Ops[L](fam)
 	for i := range in {
 		in[i] = l.Ident()
 	}
@@ -87,16 +114,16 @@ func c13Kleene[L dfa.Semilattice[F], F any](fam *c13Fam[F], gi *c13GraphInfo, la
 			if len(gi.preds[n]) > 0 {
 				acc := l.Ident()
 				for _, e := range gi.preds[n] {
-					acc = l.Merge(acc, edge[e])
+					acc = merge(acc, edge[e])
 				}
-				if !l.Equals(acc, in[n]) {
+				if !equals(acc, in[n]) {
 					in[n] = acc
 					changed = true
 				}
 			}
 			for _, e := range gi.outs[n] {
 				v := fam.tfs[labels[e]](in[n])
-				if !l.Equals(v, edge[e]) {
+				if !equals(v, edge[e]) {
 					edge[e] = v
 					changed = true
 				}
@@ -116,7 +143,7 @@ func c13Real[L dfa.Semilattice[F], F any, ID comparable](g graph.Graph[ID], ids 
 		if calls > budget {
 			panic(c13Abort{})
 		}
-		e := gi.eidx[idx(from)][idx(to)]
+		e := gi.edge(idx(from), idx(to))
 		return fam.tfs[labels[e]](f)
 	}
 	aborted, pmsg = c13Guard(func() {
@@ -131,7 +158,13 @@ func c13Real[L dfa.Semilattice[F], F any, ID comparable](g graph.Graph[ID], ids 
 	return
 }
 
-var c13IntIDs = []int{0, 1, 2, 3, 4, 5, 6, 7}
+var c13IntIDs = func() []int {
+	ids := make([]int, 256)
+	for i := range ids {
+		ids[i] = i
+	}
+	return ids
+}()
 
 // c13DenseRun evaluates one case. msg != "" is a violation; harnessErr != "" is a defect of the
 // harness (never reported as a violation).
@@ -195,13 +228,14 @@ func c13DenseRun[L dfa.Semilattice[F], F any](fam *c13Fam[F], gi *c13GraphInfo, 
 	if pmsg != "" {
 		return "panic in dense.Forward: " + pmsg, "", calls, rounds
 	}
+	merge, equals := c13Ops[L](fam)
 	for i := 0; i < n; i++ {
-		if !l.Equals(sc.inR[i], sc.inK[i]) {
+		if !equals(sc.inR[i], sc.inK[i]) {
 			return fmt.Sprintf("In(%d) = %s, least fixpoint has %s", i, fam.pstr(sc.inR[i]), fam.pstr(sc.inK[i])), "", calls, rounds
 		}
 	}
 	for e, ft := range gi.edges {
-		if !l.Equals(sc.edgeR[e], sc.edgeK[e]) {
+		if !equals(sc.edgeR[e], sc.edgeK[e]) {
 			return fmt.Sprintf("Edge(%d,%d) = %s, least fixpoint has %s", ft[0], ft[1], fam.pstr(sc.edgeR[e]), fam.pstr(sc.edgeK[e])), "", calls, rounds
 		}
 	}
@@ -212,19 +246,19 @@ func c13DenseRun[L dfa.Semilattice[F], F any](fam *c13Fam[F], gi *c13GraphInfo, 
 		}
 		acc := l.Ident()
 		for _, e := range gi.preds[i] {
-			acc = l.Merge(acc, sc.edgeR[e])
+			acc = merge(acc, sc.edgeR[e])
 		}
-		if !l.Equals(acc, sc.inR[i]) {
+		if !equals(acc, sc.inR[i]) {
 			return fmt.Sprintf("In(%d) = %s is not the merge of its incoming edge facts (%s)", i, fam.pstr(sc.inR[i]), fam.pstr(acc)), "", calls, rounds
 		}
 	}
 	for k, nd := range gi.zeroPred {
-		if !l.Equals(sc.inR[nd], entryFact(k)) {
+		if !equals(sc.inR[nd], entryFact(k)) {
 			return fmt.Sprintf("In(%d) = %s of a zero-predecessor node is not its entry fact %s", nd, fam.pstr(sc.inR[nd]), fam.pstr(entryFact(k))), "", calls, rounds
 		}
 	}
 	for e, ft := range gi.edges {
-		if want := fam.tfs[labels[e]](sc.inR[ft[0]]); !l.Equals(want, sc.edgeR[e]) {
+		if want := fam.tfs[labels[e]](sc.inR[ft[0]]); !equals(want, sc.edgeR[e]) {
 			return fmt.Sprintf("Edge(%d,%d) = %s is not transfer(In(%d)) = %s", ft[0], ft[1], fam.pstr(sc.edgeR[e]), ft[0], fam.pstr(want)), "", calls, rounds
 		}
 	}
@@ -235,7 +269,13 @@ func c13Describe[F any](fam *c13Fam[F], gi *c13GraphInfo, c c13DenseCase) string
 	var b strings.Builder
 	fmt.Fprintf(&b, "family %s, graph %s handed over as %s; transfers:", fam.name, gi.g, c13VariantNames[c.Variant])
 	for e, ft := range gi.edges {
+		if len(gi.edges) > 16 && c.Labels[e] == 0 {
+			continue // large graph: every edge not listed carries the family's first transfer (id)
+		}
 		fmt.Fprintf(&b, " %d>%d:%s", ft[0], ft[1], fam.tnames[c.Labels[e]])
+	}
+	if len(gi.edges) > 16 {
+		b.WriteString(" (all other edges: " + fam.tnames[0] + ")")
 	}
 	b.WriteString("; entry:")
 	for k, nd := range gi.zeroPred {
@@ -489,6 +529,7 @@ func c13FamNilMap() *c13Fam[[]ValueNilness] {
 		},
 		tnames: []string{"id", "x=nil", "x!=nil", "y=x", "x=y", "y=new"},
 	}
+	fam.refMerge, fam.refEquals = c13RefDenseOps[lattice, ValueNilness]()
 	elems := []ValueNilness{{}, {Outer: NeverNil}, {Outer: AlwaysNil}, {Outer: MaybeNil}}
 	fam.points = append(fam.points, nil)
 	for _, a := range elems {
@@ -555,7 +596,8 @@ func c13DenseReplay(raw json.RawMessage, res *vx.Result) {
 	var c c13DenseCase
 	json.Unmarshal(raw, &c)
 	gi := c13Info(c.Graph)
-	if len(c.Labels) != len(gi.edges) || len(c.Entry) != len(gi.zeroPred) || c.Variant < 0 || c.Variant >= c13NumVariants {
+	if len(c.Labels) != len(gi.edges) || len(c.Entry) != len(gi.zeroPred) || c.Variant < 0 || c.Variant >= c13NumVariants ||
+		(c.Graph.N > 8 && c.Variant == c13VarString) || c.Graph.N > 256 {
 		res.Note("replay file does not describe a dense case of this harness")
 		return
 	}
@@ -577,6 +619,14 @@ func c13DenseReplay(raw json.RawMessage, res *vx.Result) {
 	case nm.name:
 		msg, _, _, _ = c13DenseRun[c13NilMapL](nm, gi, c.Labels, c.Entry, c.Variant, &c13Scratch[[]ValueNilness]{})
 		text = c13Describe(nm, gi, c)
+	case "and-densemap":
+		am := c13FamAndMap()
+		msg, _, _, _ = c13DenseRun[c13AndMapL](am, gi, c.Labels, c.Entry, c.Variant, &c13Scratch[[]uint8]{})
+		text = c13Describe(am, gi, c)
+	case "flatnz-densemap":
+		fm := c13FamFlatNZMap()
+		msg, _, _, _ = c13DenseRun[c13NZMapL](fm, gi, c.Labels, c.Entry, c.Variant, &c13Scratch[[]uint8]{})
+		text = c13Describe(fm, gi, c)
 	}
 	res.Eval(1)
 	c13AddStates(1, 1, 1)
@@ -597,15 +647,20 @@ func c13DenseMain(t *testing.T, res *vx.Result) {
 		jobs = append(jobs, c13DenseJobs[c13Bits](gk2, []B{{1, 1, all}, {2, 4, all}, {3, 6, plain}, {4, 3, plain}}, res)...)
 		jobs = append(jobs, c13DenseJobs[lattice](nl, []B{{1, 1, all}, {2, 4, all}, {3, 6, plain}, {4, 1, plain}}, res)...)
 		jobs = append(jobs, c13DenseJobs[c13NilMapL](nm, []B{{1, 1, all}, {2, 4, all}, {3, 6, plain}, {4, 1, plain}}, res)...)
-		c13DenseBound = "dense: genkill1 <=3 nodes all graphs x4 shapes, 4 nodes <=7 edges, 5 nodes <=4 edges; constprop <=3 nodes all graphs x4 shapes, 4 nodes <=6 edges; genkill2 <=2 nodes all x4 shapes, 3 nodes <=6 edges, 4 nodes <=3 edges; nilness and nilness-densemap <=2 nodes all x4 shapes, 3 nodes <=6 edges, 4 nodes <=1 edge; every entry fact (and 'absent') at every zero-predecessor node"
+		jobs = append(jobs, c13DenseJobs[c13AndMapL](c13FamAndMap(), []B{{1, 1, all}, {2, 4, all}, {3, 5, plain}}, res)...)
+		jobs = append(jobs, c13DenseJobs[c13NZMapL](c13FamFlatNZMap(), []B{{1, 1, all}, {2, 4, all}, {3, 5, plain}}, res)...)
+		c13DenseBound = "and-densemap and flatnz-densemap (element identity != zero value) <=2 nodes all x4 shapes, 3 nodes <=5 edges; " + c13LargeBound + "; dense: genkill1 <=3 nodes all graphs x4 shapes, 4 nodes <=7 edges, 5 nodes <=4 edges; constprop <=3 nodes all graphs x4 shapes, 4 nodes <=6 edges; genkill2 <=2 nodes all x4 shapes, 3 nodes <=6 edges, 4 nodes <=3 edges; nilness and nilness-densemap <=2 nodes all x4 shapes, 3 nodes <=6 edges, 4 nodes <=1 edge; every entry fact (and 'absent') at every zero-predecessor node"
 	} else {
 		jobs = append(jobs, c13DenseJobs[c13Bits](gk1, []B{{1, 1, all}, {2, 4, all}, {3, 9, all}, {4, 6, plain}}, res)...)
 		jobs = append(jobs, c13DenseJobs[c13Flat](cp, []B{{1, 1, all}, {2, 4, all}, {3, 9, plain}, {4, 4, plain}}, res)...)
 		jobs = append(jobs, c13DenseJobs[c13Bits](gk2, []B{{1, 1, all}, {2, 4, all}, {3, 4, plain}, {4, 2, plain}}, res)...)
 		jobs = append(jobs, c13DenseJobs[lattice](nl, []B{{1, 1, all}, {2, 4, plain}, {3, 4, plain}}, res)...)
 		jobs = append(jobs, c13DenseJobs[c13NilMapL](nm, []B{{1, 1, all}, {2, 4, plain}, {3, 4, plain}}, res)...)
-		c13DenseBound = "dense: genkill1 <=3 nodes all graphs x4 shapes, 4 nodes <=6 edges; constprop <=2 nodes x4 shapes, 3 nodes all graphs, 4 nodes <=4 edges; genkill2 <=2 nodes all x4 shapes, 3 nodes <=4 edges, 4 nodes <=2 edges; nilness and nilness-densemap <=2 nodes all, 3 nodes <=4 edges; every entry fact (and 'absent') at every zero-predecessor node"
+		jobs = append(jobs, c13DenseJobs[c13AndMapL](c13FamAndMap(), []B{{1, 1, all}, {2, 4, plain}, {3, 3, plain}}, res)...)
+		jobs = append(jobs, c13DenseJobs[c13NZMapL](c13FamFlatNZMap(), []B{{1, 1, all}, {2, 4, plain}, {3, 3, plain}}, res)...)
+		c13DenseBound = "and-densemap and flatnz-densemap (element identity != zero value) <=2 nodes all, 3 nodes <=3 edges; " + c13LargeBound + "; dense: genkill1 <=3 nodes all graphs x4 shapes, 4 nodes <=6 edges; constprop <=2 nodes x4 shapes, 3 nodes all graphs, 4 nodes <=4 edges; genkill2 <=2 nodes all x4 shapes, 3 nodes <=4 edges, 4 nodes <=2 edges; nilness and nilness-densemap <=2 nodes all, 3 nodes <=4 edges; every entry fact (and 'absent') at every zero-predecessor node"
 	}
+	jobs = append(jobs, c13LargeJobs(gk2, cp, res)...)
 	if f := os.Getenv("C13_FAMS"); f != "" { // development aid: restrict to some families
 		var keep []c13Job
 		for _, j := range jobs {
